@@ -441,11 +441,62 @@ def gen_plane_seq_big(rng):
     return pb, gs, ops
 
 
+def gen_plane_seq_astro(rng):
+    """Planes and objects of astronomic extent (up to 2^100 units; text or a form scaled by a huge matrix):
+    an operation must not enumerate the grid cells of such a box, and find must still be brute force."""
+    gs = rng.choice([50, 50, 1, 7])
+    big = F(2) ** rng.choice([40, 64, 100])
+    x0 = rng.choice([F(0), -big, F(-37, 2)])
+    pb = (x0, x0, x0 + big, x0 + big / 2)
+    ops = []
+    live: List[Box] = []
+    nid = 0
+
+    def box():
+        r = rng.random()
+        if r < 0.35:      # huge
+            a, b = sorted((x0 + big * F(rng.randint(0, 64), 64), x0 + big * F(rng.randint(0, 64), 64)))
+            c, d = sorted((x0 + big * F(rng.randint(0, 32), 64), x0 + big * F(rng.randint(0, 32), 64)))
+            return (a, c, b + 1, d + 1)
+        if r < 0.5:       # a thin but astronomically long strip: few cells in one direction
+            a = x0 + big * F(rng.randint(0, 60), 64)
+            return (x0, a, x0 + big, a + F(rng.randint(1, 40)))
+        a = x0 + big * F(rng.randint(0, 64), 64) + F(rng.randint(-100, 100), 4)
+        c = x0 + big * F(rng.randint(0, 32), 64) + F(rng.randint(-100, 100), 4)
+        return (a, c, a + F(rng.randint(0, 300), 4), c + F(rng.randint(0, 300), 4))
+    for _ in range(rng.randint(4, 12)):
+        r = rng.random()
+        if r < 0.45 or not live:
+            nid += 1
+            b = Box(nid, *box())
+            live.append(b)
+            ops.append(("add", b))
+        elif r < 0.6:
+            b = rng.choice(live)
+            live.remove(b)
+            ops.append(("remove", b))
+        elif r < 0.9:
+            if rng.random() < 0.6:
+                o = rng.choice(live)
+                ops.append(("find", (o.x0 - 1, o.y0 - 1, o.x0 + 1, o.y0 + 1)))
+            else:
+                ops.append(("find", box()))
+        else:
+            ops.append(("iter",))
+    ops.append(("find", pb))
+    ops.append(("iter",))
+    return pb, gs, ops
+
+
 def run_plane(ctx: C.Ctx) -> None:
     rng = ctx.rng
     lines: List[str] = []
     impl: List[str] = []
     inputs: List[Any] = []
+    for i in range(ctx.n(40, 1500)):
+        pb, gs, ops = gen_plane_seq_astro(rng)
+        ctx.branch("plane:astronomic")
+        check_plane_case(ctx, pb, gs, ops, True, lines, impl, inputs)
     for i in range(ctx.n(8, 120)):
         pb, gs, ops = gen_plane_seq_big(rng)
         ctx.branch("plane:many-cells")
